@@ -13,6 +13,19 @@ func (e StdEng) StackDense(t DenseTensor, axis int, others ...DenseTensor) (retV
 		return
 	}
 
+	// stacking is only defined for operands of one and the same shape
+	for _, ot := range others {
+		os := ot.Shape()
+		ok := len(os) == opdims
+		for i := 0; ok && i < opdims; i++ {
+			ok = os[i] == t.Shape()[i]
+		}
+		if !ok {
+			err = errors.Errorf(shapeMismatch, t.Shape(), os)
+			return
+		}
+	}
+
 	newShape := Shape(BorrowInts(opdims + 1))
 	newShape[axis] = len(others) + 1
 	shape := t.Shape()
